@@ -259,6 +259,22 @@ impl Dbg {
     fn eval(&mut self, kind: &EvalKind, policy: Policy) -> bool {
         match kind {
             EvalKind::Refused => true,
+            EvalKind::JumpLabel { label } => {
+                let Some((_, addr)) = self.labels.iter().find(|(l, _)| l == label) else {
+                    return true;
+                };
+                // An 11-bit field: a label out of its reach may be refused (adopted by the caller)
+                let off = *addr as i64 - self.vm.pc as i64;
+                if policy.eval_far_label_refused && !(-1000..=1000).contains(&off) {
+                    return true;
+                }
+                self.vm.pc = *addr;
+                false
+            }
+            EvalKind::JumpReg { reg } => {
+                self.vm.pc = self.vm.reg[*reg as usize];
+                false
+            }
             EvalKind::Word(w) => {
                 // A stop from inside an evaluated instruction cannot happen for generated forms
                 let _ = self.vm.execute(*w, &mut self.io);
